@@ -224,6 +224,7 @@ def churn_shard(task):
   dropped, and a converter of another space B is created until it happens to land on A's old address; the optimiser built for
   it must still be one for B (anything remembered per object identity instead of per object shows here)."""
   import jax
+  import jax.numpy as jnp
   jax.config.update('jax_enable_x64', True)
   from vizier.pyvizier import converters
   from vizier._src.algorithms.optimizers import eagle_strategy as es, random_vectorized_optimizer as rvo, vectorized_base as vb
@@ -260,6 +261,33 @@ def churn_shard(task):
           sig = 'C19|raises-after-converter-churn|%s' % strat
           vios.setdefault(sig, {'sig': sig, 'desc': '%s: %r' % (cfg, e), 'case': None})
         break
+  # one compiled "optimise" function with the optimiser as its (pytree) argument, as the GP designers use it, called for two
+  # search spaces of the same shape but other category counts: the second call must be an optimisation of the second space
+  try:
+    import equinox as eqx
+  except Exception:  # pylint: disable=broad-except
+    eqx = None
+  if eqx is not None:
+    for strat in ('eagle', 'random'):
+      for la, lb in (((1, (5, 2)), (1, (2, 5))), ((0, (4, 3, 2)), (0, (2, 3, 4))), ((2, (3,)), (2, (2,)))):
+        n += 1
+        score_any = lambda mi, seed: -0.1 * jnp.sum((mi.continuous.padded_array - 0.5) ** 2, axis=-1) + 0.5 * jnp.sum(mi.categorical.padded_array, axis=-1)
+
+        @eqx.filter_jit
+        def optimise(optimizer, seed):
+          return optimizer(score_any, count=3, seed=seed)
+        try:
+          for lay in (la, lb):
+            conv = mk(*lay)
+            res = optimise(opt(conv, strat), jax.random.PRNGKey(1))
+            C = np.asarray(res.features.categorical)
+            bad = [j for j, sz in enumerate(lay[1]) if not ((C[..., j] >= 0) & (C[..., j] < sz)).all()]
+            if bad:
+              sig = 'C19|categorical-out-of-range:shared-compiled-function|%s' % strat
+              vios.setdefault(sig, {'sig': sig, 'desc': '%s: one jitted optimise(optimizer, seed) called for layout %s and then %s: for %s it returns categorical values %s' % (strat, la, lb, lay, np.unique(C).tolist()), 'case': None})
+        except Exception as e:  # pylint: disable=broad-except
+          sig = 'C19|raises:shared-compiled-function|%s' % strat
+          vios.setdefault(sig, {'sig': sig, 'desc': '%s layouts %s then %s: %r' % (strat, la, lb, e), 'case': None})
   return {'n': n, 'reused': reused, 'violations': list(vios.values())}
 
 
